@@ -22,6 +22,7 @@ import (
 	"os"
 	"strings"
 	"sync"
+	"sync/atomic"
 	"testing"
 	"time"
 
@@ -53,6 +54,9 @@ func (c03PipeAddr) String() string  { return "pipe" }
 var (
 	c03FailMu sync.Mutex
 	c03Fails  []string
+	// probes that took more than 2 s of real time on the virtual-time connection (the handler sleeps
+	// instead of reading): after a dozen the generators stop, so that the run ends and reports
+	c03Slow atomic.Int32
 )
 
 func c03Fail(out *vlib.Out, sig, what, replay string) {
@@ -188,6 +192,13 @@ func c03Run(out *vlib.Out, w *c34World, c *c03Case, limit time.Duration) {
 		remote, geo = c03PipeAddr{}, "ok"
 	}
 	conn := newC34Scripted(c.evs, remote)
+	began := time.Now()
+	defer func() {
+		if !c.tagged && time.Since(began) > 2*time.Second {
+			c03Slow.Add(1)
+			out.Count("slow-probe(>2s)")
+		}
+	}()
 	run, done := w.start(conn, c.phantom, geo)
 	hung := false
 	select {
@@ -763,7 +774,13 @@ func TestVerifC03(t *testing.T) {
 	gens := make([]*c03Gen, nW)
 	for wi := 0; wi < nW; wi++ {
 		wi := wi
-		gens[wi] = &c03Gen{r: vlib.NewRand(fmt.Sprintf("C03/gen%d", wi)), w: worlds[wi], clients: clientsOf[wi], emit: func(c c03Case) { chans[wi] <- c }}
+		gens[wi] = &c03Gen{r: vlib.NewRand(fmt.Sprintf("C03/gen%d", wi)), w: worlds[wi], clients: clientsOf[wi], emit: func(c c03Case) {
+			if c03Slow.Load() >= 12 {
+				out.Count("skipped-after-12-slow-probes")
+				return
+			}
+			chans[wi] <- c
+		}}
 	}
 	var gwg sync.WaitGroup
 	for wi := 0; wi < nW; wi++ {
